@@ -101,6 +101,10 @@ def gen_value(rng, kind):
         return {"kind": "listint", "value": [rng.choice(INTS) for _ in range(rng.choice([0, 1, 2, 2, 3]))]}
     if kind == "none":
         return {"kind": "none"}
+    if kind == "bool":
+        return {"kind": "bool", "value": rng.random() < 0.5}
+    if kind == "negzero":
+        return {"kind": "negzero"}
     raise AssertionError(kind)
 
 
@@ -111,6 +115,8 @@ def gen_case(rng) -> dict:
     inputs = []
     for n in names:
         kinds = ["str", "str", "int", "float", "file", "file", "file"]
+        if rng.random() < 0.08:
+            kinds = ["bool", "negzero", "int", "float"]  # falsy-but-set values: False, -0.0, 0, 0.0 are in INTS/DECS too
         if multi:
             kinds += ["liststr", "liststr", "listint"]
         if rng.random() < 0.04:
@@ -127,10 +133,11 @@ def gen_case(rng) -> dict:
     # template: literal pieces and the referenced fields in random order
     pieces = []
     for n in names:
-        num = next((i["kind"] for i in inputs if i["name"] == n), "") in ("int", "float")
+        kind_n = next((i["kind"] for i in inputs if i["name"] == n), "")
+        num = kind_n in ("int", "float", "negzero")
         if num and rng.random() < 0.5:
             pieces.append("{%s:.%df}" % (n, rng.choice([0, 1, 2, 3])))
-        elif rng.random() < 0.04:
+        elif kind_n != "bool" and rng.random() < 0.04:
             pieces.append("{%s:.1f}" % n)  # 'f' on whatever the value is
         else:
             pieces.append("{%s}" % n)
@@ -173,6 +180,18 @@ def grid_cases() -> list[dict]:
     for s in STRS:
         for t in ["{x}", "{x}_o", "o_{x}.txt", "d/{x}", "{x}/o", "{x}{x}"]:
             out.append({"tmpl": t, "inputs": [{"kind": "str", "value": s, "name": "x"}], "keep": True, "multi": False, "given": {"kind": "template"}})
+    # set-but-falsy values: 0, 0.0, -0.0, False, "" (and True) must resolve like any other value
+    fx = {"kind": "file", "dir": "in", "fname": "scan.nii.gz", "name": "x"}
+    falsy = [{"kind": "int", "value": 0}, {"kind": "float", "dec": [0, 1]}, {"kind": "negzero"}, {"kind": "bool", "value": False},
+             {"kind": "bool", "value": True}, {"kind": "str", "value": ""}]
+    for fv in falsy:
+        specs = ["{y}", "{x}_{y}", "{y}_{x}", "o_{y}.txt"]
+        if fv["kind"] in ("int", "float", "negzero"):
+            specs += ["{x}_{y:.2f}", "v{y:.0f}", "{y:.1f}.txt"]
+        for t in specs:
+            for keep in (True, False):
+                ins = [dict(fx)] if "{x}" in t else []
+                out.append({"tmpl": t, "inputs": ins + [{**fv, "name": "y"}], "keep": keep, "multi": False, "given": {"kind": "template"}})
     for m, k in DECS:
         for t in ["{y}", "v{y:.0f}", "v{y:.1f}", "v{y:.2f}.txt", "{y:.3f}"]:
             out.append({"tmpl": t, "inputs": [{"kind": "float", "dec": [m, k], "name": "y"}], "keep": True, "multi": False, "given": {"kind": "template"}})
@@ -217,6 +236,10 @@ def _build(case, scratch: Path):
             tp, val = list[int], list(i["value"])
         elif k == "none":
             tp, val = ty.Optional[str], None
+        elif k == "bool":
+            tp, val = bool, bool(i["value"])
+        elif k == "negzero":
+            tp, val = float, -0.0
         else:
             raise core.Infra(f"bad input kind {k}")
         ins[i["name"]] = shell.arg(type=tp, argstr="", **({"default": None} if k == "none" else {}))
@@ -335,6 +358,10 @@ def model_query(case, scratch: Path) -> dict:
             v = {"list": [{"str": s} for s in i["value"]]}
         elif k == "listint":
             v = {"list": [{"int": n} for n in i["value"]]}
+        elif k == "bool":
+            v = {"str": "True" if i["value"] else "False"}  # str(bool); never generated with a format spec
+        elif k == "negzero":
+            v = {"str": "-0.0"}  # str(-0.0); with a format spec the case is compared with the spec only (model_covers)
         else:
             v = {"none": True}
         vals.append([i["name"], v])
@@ -377,8 +404,24 @@ def spec_fast(case, impl, scratch) -> bool:
         ok = ok and impl["input"] == {"kind": "absent"}
     else:
         ok = ok and all(is_plain_name(p) for p in paths_of(impl["input"]))
+        # the template is in force and nothing it mentions is unset: a path must come out (an exception is a refusal,
+        # "no output" is not).  0, 0.0, -0.0, False and "" are set values.
+        if all_referenced_set(case):
+            ok = ok and impl["input"].get("kind") != "absent"
     ok = ok and all(is_plain_name(p) for p in paths_of(impl["output"]))
+    if all_referenced_set(case):
+        ok = ok and impl["output"].get("kind") != "absent"
     return ok and ext_clause_ok(case, impl)
+
+
+def all_referenced_set(case) -> bool:
+    """No input that is unset (None) is mentioned by the template (any spelling starting `{name`)."""
+    return not any(i["kind"] == "none" and ("{" + i["name"]) in case["tmpl"] for i in case["inputs"])
+
+
+def model_covers(case) -> bool:
+    """-0.0 under a format spec is outside the model's exact-decimal floats."""
+    return not any(i["kind"] == "negzero" and ("{" + i["name"] + ":") in case["tmpl"] for i in case["inputs"])
 
 
 def ext_clause_ok(case, impl) -> bool:
@@ -423,7 +466,7 @@ def run_fast(ctx, cases):
                 ctx.tie_broken.append({"kind": "model-driver", "detail": f"driver rejected {c}: {a.get('error') or b.get('error')}"})
             else:
                 mi, mo = model_obs(cd, a["out"]), model_obs(cd, b["out"])
-                if mi is not None and mo is not None and "build" not in impl:
+                if mi is not None and mo is not None and "build" not in impl and model_covers(c):
                     model = {"input": mi, "output": mo, "det": True}
                     if (not b["tailOK"]) != rule and paths_of(mo):
                         # the Lean predicate and the harness' match rule must be the same predicate
@@ -473,7 +516,7 @@ def run_full(ctx, cases):
         a = answers.get(id(c))
         if a is not None and "error" in a:
             ctx.tie_broken.append({"kind": "model-driver", "detail": f"driver rejected {c}: {a['error']}"})
-        elif a is not None:
+        elif a is not None and model_covers(c):
             m = model_obs(cd, a["out"])
             rule = not a["tailOK"] and c["given"]["kind"] == "template"
             if m is not None and m["kind"] != "error":
@@ -486,6 +529,8 @@ def run_full(ctx, cases):
         ok = True
         if "job_input" in impl and c["given"]["kind"] == "template":
             ok = all(is_plain_name(p) for p in paths_of(impl["job_input"])) and all(is_plain_name(p) for p in impl["outputs"].get("paths", []))
+            if all_referenced_set(c):
+                ok = ok and impl["job_input"].get("kind") != "absent"
         ctx.count("full-run")
         ctx.count("full:" + ("build" if "build" in impl else "not-executed" if cd is None else "error" if "error" in impl["outputs"] else "collected"))
         ctx.judge({"full": True, **c}, impl, model, ok, nontrivial=bool(paths_of(impl.get("job_input", {}))), defect="D16" if rule else None, what="task run (executor intercepted)")
